@@ -37,6 +37,10 @@ else
   build bin/vcheck
   bin=bin/vcheck
 fi
+# streamsql's go.mod says "go 1.18": built as the main module (its own tests, or an application that
+# still declares go < 1.23) it runs with the pre-1.23 timer-channel semantics, where a stale expiry
+# can survive Timer.Reset.  The harness module declares go 1.23, so select the library's own semantics.
+export GODEBUG="asynctimerchan=1${GODEBUG:+,$GODEBUG}"
 export VERIF_BIN="$PWD/$bin"
 racelog="$PWD/tmp/race.$prop.$$"
 rm -f "$racelog".*
